@@ -13,7 +13,7 @@ structure DailyEArgs (a : Args) : Prop where
   freq : a.freq = 3
   interval : 1 ≤ a.interval
   valid : a.dtstart.Valid
-  weekno : WArg a
+  byweekno : a.byweekno = none
   monthday_nz : ∀ x ∈ a.bymonthday.getD [], x ≠ 0
   easter : ∃ el, a.byeaster = some el ∧ el ≠ [] ∧ ∀ o ∈ el, -80 ≤ o ∧ o ≤ 250
 
